@@ -78,7 +78,12 @@ top:
 		if 0 < i {
 			key = append(key, '|')
 		}
-		key = append(key, da.Type...)
+		if len(da.Type) == 0 {
+			// An unspecialized required parameter is stored under t.
+			key = append(key, 't')
+		} else {
+			key = append(key, da.Type...)
+		}
 	}
 	aux.moo.Lock()
 	defer aux.moo.Unlock()
